@@ -1,0 +1,148 @@
+//go:build verif
+// +build verif
+
+package isaacstates
+
+import (
+	"unsafe"
+
+	"github.com/spikeekips/mitum/base"
+)
+
+// ---- ballotbox introspection (read-only) for the verification harness
+
+// VerifRecord describes one entry of the ballotbox record table.
+type VerifRecord struct {
+	Key   string
+	ID    uintptr // identity of the record object
+	Point base.StagePoint
+	ISC   bool // suffrage-confirm record
+}
+
+func verifRecordID(vr *voterecords) uintptr { return uintptr(unsafe.Pointer(vr)) }
+
+// VerifRecords lists the record table: key, object identity and the stage point / suffrage-confirm flag the record holds.
+func (box *Ballotbox) VerifRecords() []VerifRecord {
+	var rs []VerifRecord
+
+	box.vrs.Traverse(func(k string, vr *voterecords) bool {
+		rs = append(rs, VerifRecord{Key: k, ID: verifRecordID(vr), Point: vr.stagepoint(), ISC: vr.isSuffrageConfirm()})
+
+		return true
+	})
+
+	return rs
+}
+
+// VerifRemoved lists the records waiting to be released at the next cleanup.
+func (box *Ballotbox) VerifRemoved() []VerifRecord {
+	var rs []VerifRecord
+
+	_ = box.removed.Get(func(removed []*voterecords, _ bool) error {
+		for i := range removed {
+			vr := removed[i]
+			rs = append(rs, VerifRecord{ID: verifRecordID(vr), Point: vr.stagepoint(), ISC: vr.isSuffrageConfirm()})
+		}
+
+		return nil
+	})
+
+	return rs
+}
+
+// VerifWrapPoolPut lets the harness observe every release of a record to the pool (before it is reset). The returned
+// function restores the original behaviour.
+func VerifWrapPoolPut(f func(id uintptr, point base.StagePoint, isc bool)) (restore func()) {
+	orig := voterecordsPoolPut
+	voterecordsPoolPut = func(vr *voterecords) {
+		f(verifRecordID(vr), vr.stagepoint(), vr.isSuffrageConfirm())
+		orig(vr)
+	}
+
+	return func() { voterecordsPoolPut = orig }
+}
+
+// ---- States with harness-controlled stub handlers
+
+// VerifSwitchCtx is a plain switch request usable from outside the package.
+type VerifSwitchCtx struct { //nolint:errname //...
+	baseSwitchContext
+}
+
+func NewVerifSwitchCtx(from, next StateType) VerifSwitchCtx {
+	return VerifSwitchCtx{baseSwitchContext: newBaseSwitchContext(from, next)}
+}
+
+func (s VerifSwitchCtx) From() StateType { return s.from() }
+func (s VerifSwitchCtx) Next() StateType { return s.next() }
+
+// VerifStubHandler is a state handler whose outcomes are decided by harness callbacks. It is its own factory.
+type VerifStubHandler struct {
+	OnEnter     func(from, next StateType) error // nil, a plain error, or a VerifSwitchCtx (redirect)
+	OnExit      func(next StateType) error       // nil, a plain error or ErrIgnoreSwitchingState
+	OnVoteproof func(base.Voteproof) error       // nil, errIgnore, or a VerifSwitchCtx
+	OnAllow     func(bool)
+	S           StateType
+}
+
+func (h *VerifStubHandler) new() (handler, error) { return h, nil }
+func (*VerifStubHandler) setStates(*States)       {}
+func (h *VerifStubHandler) state() StateType      { return h.S }
+
+func (h *VerifStubHandler) enter(from StateType, sctx switchContext) (func(), error) {
+	if h.OnEnter == nil {
+		return nil, nil
+	}
+
+	next := h.S
+	if sctx != nil {
+		next = sctx.next()
+	}
+
+	return nil, h.OnEnter(from, next)
+}
+
+func (h *VerifStubHandler) exit(sctx switchContext) (func(), error) {
+	if h.OnExit == nil {
+		return nil, nil
+	}
+
+	return nil, h.OnExit(sctx.next())
+}
+
+func (h *VerifStubHandler) newVoteproof(vp base.Voteproof) error {
+	if h.OnVoteproof == nil {
+		return nil
+	}
+
+	return h.OnVoteproof(vp)
+}
+
+func (*VerifStubHandler) allowedConsensus() bool { return false }
+
+func (h *VerifStubHandler) whenSetAllowConsensus(allow bool) {
+	if h.OnAllow != nil {
+		h.OnAllow(allow)
+	}
+}
+
+// VerifSetCurrent installs h as the current handler without running the daemon.
+func (st *States) VerifSetCurrent(h *VerifStubHandler) {
+	st.stateLock.Lock()
+	defer st.stateLock.Unlock()
+
+	st.cs = h
+}
+
+// VerifMimicBallotFunc returns the function States registers with the ballotbox for every newly voted ballot.
+func (st *States) VerifMimicBallotFunc() func(base.Ballot) {
+	return st.mimicBallotFunc()
+}
+
+// VerifNewVoteproof feeds a voteproof to the running States the way the stuck resolver / handlers do.
+func (st *States) VerifNewVoteproof(vp base.Voteproof) error {
+	errch := make(chan error, 1)
+	st.vpch <- voteproofWithErrchan{vp: vp, errch: errch}
+
+	return <-errch
+}
